@@ -23,6 +23,10 @@ from mc.spec import corpus
 LEVEL = "model_checking"
 
 
+def short_tag(tag):
+    return tag.split("|")[0].split("/")[0]
+
+
 def invariants(fgraph, loop_ranks):
     import networkx as nx
     from teaal.ir.flow_nodes import LoopNode, EndLoopNode, OtherNode
@@ -179,7 +183,7 @@ def slice_entries(ctx):
 def run(ctx):
     es = corpus.entries(ctx)
     if ctx.quick:
-        es = [e for i, e in enumerate(es) if i % 3 == 0 or e["tag"].startswith(("CONVB", "file:", "REV"))]
+        es = [e for i, e in enumerate(es) if i % 3 == 0 or e["tag"].startswith(("CONVB", "file:", "REV", "FLAT3"))]
     es = [e for e in es if not e["tag"].startswith("C11:mm/occ|mrgx:A")]   # F16, reported by C06 / C11
     dres = pmap(default_entry, es, jobs=ctx.jobs, seed=ctx.seed, progress="C10-default")
     viols = []
@@ -187,14 +191,14 @@ def run(ctx):
     for e, r in zip(es, dres):
         if r["rejected"]:
             if e.get("must_compile"):
-                viols.append({"sig": {"kind": "legal-spec-rejected", "tag": e["tag"].split("/")[0], "dev": 0},
+                viols.append({"sig": {"kind": "legal-spec-rejected", "tag": short_tag(e["tag"]), "dev": 0},
                               "msg": "%s: a specification of a class that always compiles is now rejected: %s\n%s" % (e["tag"], r["rejected"], e["yaml"]),
                               "case": {"entry": e, "prefix": []}})
             continue
         states += 1
         transitions += r["nodes"]
         if r["viol"]:
-            viols.append({"sig": {"kind": r["kind"], "tag": e["tag"].split("/")[0], "dev": 0},
+            viols.append({"sig": {"kind": r["kind"], "tag": short_tag(e["tag"]), "dev": 0},
                           "msg": "%s (default tie-break): %s" % (e["tag"], r["viol"]), "case": {"entry": e, "prefix": []}})
     sl = slice_entries(ctx)
     max_dev = ctx.pick(1, 2)
@@ -230,7 +234,7 @@ def run(ctx):
                          "completed_bound": inf["completed_bound"], "exhaustive": inf["exhaustive"], "distinct_texts": len(tset),
                          "graph_nodes": nodes})
         if first:
-            viols.append({"sig": {"kind": first["kind"], "tag": e["tag"].split("|")[0].split("/")[0], "dev": len([c for c in first["prefix"] if c])},
+            viols.append({"sig": {"kind": first["kind"], "tag": short_tag(e["tag"]), "dev": len([c for c in first["prefix"] if c])},
                           "msg": "%s, tie-break choices %r: %s" % (e["tag"], first["prefix"], first["msg"]),
                           "case": {"entry": e, "prefix": first["prefix"], "other_prefix": acc[0] if first["kind"] == "order-dependent-failure" else None}})
     uniq = {}
@@ -255,14 +259,14 @@ def replay(ctx, case):
         _, _, r1 = run_one(e, case["prefix"], execute=False)
         _, _, r2 = run_one(e, case["other_prefix"], execute=False)
         if bool(r1.get("rejected")) != bool(r2.get("rejected")):
-            return [{"sig": {"kind": "order-dependent-failure", "tag": e["tag"].split("|")[0].split("/")[0], "dev": len([c for c in case["prefix"] if c])},
+            return [{"sig": {"kind": "order-dependent-failure", "tag": short_tag(e["tag"]), "dev": len([c for c in case["prefix"] if c])},
                      "msg": "tie-break %r: %s; tie-break %r: %s" % (case["prefix"], r1.get("rejected") or "compiles", case["other_prefix"], r2.get("rejected") or "compiles"),
                      "case": case}]
         return []
     ch, ar, res = run_one(e, case["prefix"], execute=e.get("spec") is not None)
     if res.get("rejected") and e.get("must_compile"):
-        return [{"sig": {"kind": "legal-spec-rejected", "tag": e["tag"].split("/")[0], "dev": 0}, "msg": res["rejected"], "case": case}]
+        return [{"sig": {"kind": "legal-spec-rejected", "tag": short_tag(e["tag"]), "dev": 0}, "msg": res["rejected"], "case": case}]
     if res["viol"]:
-        return [{"sig": {"kind": res["kind"], "tag": e["tag"].split("|")[0].split("/")[0], "dev": len([c for c in case["prefix"] if c])},
+        return [{"sig": {"kind": res["kind"], "tag": short_tag(e["tag"]), "dev": len([c for c in case["prefix"] if c])},
                  "msg": res["viol"], "case": case}]
     return []
